@@ -416,6 +416,60 @@ def stream_exhaustive(R, ncolors):
                    'a group without data being edited), plus %d sampled sequences of length %d..%d' % (kmax, len(al), len(CONFIGS), len(extra), kmax + 1, kmax + 3))
 
 
+def ladder_walks(k, length):
+    """all undo/redo sequences of exactly `length` steps after k commands in which no step is refused"""
+    out = []
+
+    def go(c, u, acc):
+        if len(acc) == length:
+            out.append(list(acc))
+            return
+        if c > 0:
+            go(c - 1, u + 1, acc + [('undo',)])
+        if u > 0:
+            go(c + 1, u - 1, acc + [('redo',)])
+    go(k, 0, [])
+    return out
+
+
+LADDER_CONFIGS = [
+    {'pool': 2, 'mode': 'and', 'pre': [('append', 0)], 'edit': []},            # one dataset, no group: the first selection creates one
+    {'pool': 2, 'mode': 'replace', 'pre': [], 'edit': []},                     # empty session
+    {'pool': 2, 'mode': 'xor', 'pre': [('append', 0), ('newgroup', ('leaf', 6))], 'edit': [0]},
+]
+
+
+def ladder_alphabet():
+    return [('apply', E1, None, False),        # creates a group when nothing is edited, otherwise combines in the session mode
+            ('apply', E2, 'and', False),       # combines (creates when nothing is edited)
+            ('apply', E2, 'new', True),        # always creates (ApplyROI)
+            ('add', 1), ('rem', 0)]
+
+
+def stream_ladders(R, ncolors):
+    """do^k followed by every undo/redo interleaving that stays inside the stacks: depth-k undo/redo across commands that
+    create groups and commands that combine into them (every step is compared and checked, so only maximal walks are run)"""
+    kmax = 3
+    length = R.pick(6, 8)
+    al = ladder_alphabet()
+    cases = []
+    for cfg in LADDER_CONFIGS:
+        for k in range(1, kmax + 1):
+            walks = ladder_walks(k, length)
+            for cmds in itertools.product(al, repeat=k):
+                for w in walks:
+                    cases.append(dict(cfg, ops=[('do', c) for c in cmds] + w))
+    outs = R.model([case_line(c, ncolors) for c in cases])
+    for c, mt in zip(cases, outs):
+        R.count(case_key(c), nontrivial=True, stream='ladders', length=len(c['ops']))
+        check_case(R, c, mt, 'ladders')
+    R.sample({'ladders': cases[len(cases) // 2]})
+    R.stream('ladders', cases=len(cases), exhaustive=True,
+             bound='do^k for k = 1..%d over %d commands (selection without override, selection with and, ApplyROI with new, AddData, RemoveData) followed by every '
+                   'sequence of %d undo/redo steps none of which is refused, from %d start configurations (one dataset and no group; empty session; one group being edited)'
+                   % (kmax, len(al), length, len(LADDER_CONFIGS)))
+
+
 def rand_cmd(rng, nd):
     r = rng.random()
     if r < 0.22:
@@ -427,7 +481,7 @@ def rand_cmd(rng, nd):
     return ('apply', e, ov, rng.random() < 0.3)
 
 
-def rand_case(rng, burst=False, max_undo=50):
+def rand_case(rng, burst=False, max_undo=50, ladder=False):
     pool = rng.choice([1, 2, 3])
     pre = []
     ng = 0
@@ -456,6 +510,23 @@ def rand_case(rng, burst=False, max_undo=50):
         for _ in range(rng.choice([0, 4])):
             ops.append(('do', rand_cmd(rng, pool)))
             ops.append(('undo',))
+    elif ladder:
+        # a few commands, then a long run of undo / redo that stays inside the stacks most of the time, possibly twice
+        for _ in range(rng.choice([1, 2])):
+            k = rng.choice([2, 3, 4, 5])
+            for _ in range(k):
+                ops.append(('do', rand_cmd(rng, pool)))
+            c, u = k, 0
+            for _ in range(rng.choice([5, 8, 12])):
+                r = rng.random()
+                if (c > 0 and (u == 0 or r < 0.5)) or (c == 0 and u == 0) or r < 0.04:
+                    ops.append(('undo',))
+                    if c > 0:
+                        c, u = c - 1, u + 1
+                else:
+                    ops.append(('redo',))
+                    if u > 0:
+                        c, u = c + 1, u - 1
     else:
         length = rng.choice([5, 8, 12, 20, 30])
         depth = 0
@@ -471,9 +542,11 @@ def rand_case(rng, burst=False, max_undo=50):
 
 
 def stream_random(R, ncolors, max_undo):
-    n = R.pick(1200, 8000)
+    n = R.pick(900, 8000)
     nb = R.pick(16, 120)
+    nl = R.pick(500, 4000)
     cases = [rand_case(R.subrng('rand', i)) for i in range(n)]
+    cases += [rand_case(R.subrng('ladder', i), ladder=True) for i in range(nl)]
     cases += [rand_case(R.subrng('burst', i), burst=True, max_undo=max_undo) for i in range(nb)]
     outs = R.model([case_line(c, ncolors) for c in cases])
     for c, mt in zip(cases, outs):
@@ -482,9 +555,9 @@ def stream_random(R, ncolors, max_undo):
             R.hist['op_kind'][o[0] if o[0] != 'do' else 'do ' + o[1][0]] += 1
         check_case(R, c, mt, 'random')
     R.sample({'random': dict(cases[0])})
-    R.stream('random', cases=n, bursts=nb, exhaustive=False,
+    R.stream('random', cases=n, ladders=nl, bursts=nb, exhaustive=False,
              bound='pool 1..3 datasets, random prelude (append / new group / remove), random edit choice and session mode, 5..30 steps of do/undo/redo with all '
-                   'five combine modes and new, ApplySubsetState and ApplyROI; %d burst cases with more than MAX_UNDO=%d commands, then undo past the bottom, then redo' % (nb, max_undo))
+                   'five combine modes and new, ApplySubsetState and ApplyROI; %d ladder cases (2..5 commands, then 5..12 undo/redo that mostly stay inside the stacks, once or twice); %d burst cases with more than MAX_UNDO=%d commands, then undo past the bottom, then redo' % (nl, nb, max_undo))
 
 
 def stream_malformed(R, ncolors):
@@ -509,6 +582,7 @@ def run(R):
               'seeded random longer ones and bursts longer than MAX_UNDO; a case is non-trivial when it executes at least one command and at least one undo; '
               'distinct = distinct (start configuration, sequence)')
     stream_malformed(R, ncolors)
+    stream_ladders(R, ncolors)
     stream_random(R, ncolors, command.MAX_UNDO)
     stream_exhaustive(R, ncolors)
     R.exhaustive = True
